@@ -471,7 +471,11 @@ try:
     #  at which the defect repaired by 855bea9 appeared)
     for (numpoints, numel) in ((1, 2), (9, 3), (41, 4), (1100, 5)) if Q else ((1, 2), (9, 3), (41, 4), (401, 5), (1100, 5), (4001, 4)):
         tx, rx = arim.ut.fmc(numel) if rng.random() < 0.5 else arim.ut.hmc(numel)
-        w = lambda: np.ascontiguousarray(rng.standard_normal((numel, numpoints)) + 1j * rng.standard_normal((numel, numpoints)))
+        def w():
+            a_ = np.ascontiguousarray(rng.standard_normal((numel, numpoints)) + 1j * rng.standard_normal((numel, numpoints)))
+            # some rays carry exactly nothing (masked by the user, a coefficient that is exactly zero at normal incidence)
+            a_[rng.random((numel, numpoints)) < 0.15] = 0.0
+            return a_
         ang = lambda: np.ascontiguousarray(rng.uniform(-np.pi, np.pi, (numel, numpoints)))
         rw = amodel.RayWeights({"txp": w()}, {"rxp": w()}, {}, {}, {"txp": ang(), "rxp": ang()})
         nmat = 12
@@ -498,6 +502,14 @@ try:
                 canon = {"amplitudes": full, "chunked": parts,
                          "sens_uniform": outs_[f"sens_uniform_bs{numpoints + 1}"],
                          "sens_assisted": outs_[f"sens_assisted_bs{numpoints + 1}"]}
+                # an entry that uses a ray of weight exactly zero is exactly zero (finite scattering values), whatever the block
+                dead_ = (rw.tx_ray_weights_dict["txp"][tx, :].T == 0) | (rw.rx_ray_weights_dict["rxp"][rx, :].T == 0)
+                for nm_, arr_ in (("[...]", full), ("3-point slices", parts)):
+                    if arr_.shape == dead_.shape and np.any(arr_[dead_] != 0):
+                        chk.violation(f"model_amplitudes:{kind}:dead-rays", f"model amplitudes ({nm_}) are not zero where a tx or rx ray weight is exactly zero",
+                                      {"kind": kind, "numpoints": numpoints, "numtimetraces": len(tx), "threads": t,
+                                       "nonzero_values": arr_[dead_][arr_[dead_] != 0][:10]})
+                        break
                 if not np.array_equal(bits(full), bits(parts)):
                     chk.violation(f"model_amplitudes:{kind}:slices", "model amplitudes differ between [...] and 3-point slices",
                                   {"kind": kind, "numpoints": numpoints, "threads": t})
